@@ -590,14 +590,21 @@ def model_check(ck: Check, pid: str, tier: str) -> None:
     if pid in ("C03", "C09", "C10"):
         # the implementation-shaped runner: the repaired algorithm satisfies the invariants for an in-memory-like and a
         # Redis-like consumer; the pinned algorithm does not (that counter-example is the defect the trace checks found)
-        for cfg2 in ("MC_Runner_repaired_inmem.cfg", "MC_Runner_repaired_redis.cfg", "MC_Runner_repaired_redis_ml.cfg", "MC_Runner_repaired_big.cfg"):
+        for cfg2, invs in (("MC_Runner_repaired_inmem.cfg", "all"), ("MC_Runner_repaired_inmem_nolimit.cfg", "all"),
+                           ("MC_Runner_repaired_rabbit.cfg", "all"), ("MC_Runner_repaired_big.cfg", "all"),
+                           ("MC_Runner_redis_other.cfg", "all but AtReturn"), ("MC_Runner_redis_other_ml.cfg", "all but AtReturn")):
             r2 = tlc.run_tlc("Runner", cfg2, timeout=900)
             if not r2.ok:
                 ck.model_violation(r2, f"Runner ({cfg2})")
-            ck.add_tlc(r2, f"Runner (implementation-shaped, repaired), {cfg2}: Conservation, RunningBound, StartedBound, AtReturn, TriedBound")
-        for cfg2, inv in (("MC_Runner_pinned_inmem.cfg", "StartedBound"), ("MC_Runner_pinned_redis.cfg", "AtReturn")):
+            ck.add_tlc(r2, f"Runner (implementation-shaped, repaired), {cfg2}: {invs} of Conservation, RunningBound, StartedBound, AtReturn, TriedBound")
+        # expected counter-examples: the pinned algorithm (defects repaired in /repo), and the Redis-like consumer whose
+        # finish() returns only its local queue (known finding redis-stop-leaves-in-flight)
+        for cfg2, inv in (("MC_Runner_pinned_inmem.cfg", "StartedBound"), ("MC_Runner_pinned_redis.cfg", "AtReturn"),
+                          ("MC_Runner_redis_atreturn.cfg", "AtReturn")):
             r3 = tlc.run_tlc("Runner", cfg2, timeout=900)
-            ck.tlc_runs.append({"what": f"Runner with the pinned (pre-fix) algorithm, {cfg2}: expected to violate {inv}",
+            if r3.ok:
+                raise tlc.MachineryError(f"Runner {cfg2} was expected to violate {inv}: the model no longer shows the defect it documents")
+            ck.tlc_runs.append({"what": f"Runner, {cfg2}: expected to violate {inv}",
                                 "violated": r3.violated, "counterexample": [a for a, _ in r3.trace][:16]})
 
 
